@@ -20,7 +20,8 @@ var (
 	preFmt     = func(e *z.ZogIssue, c z.Ctx) { e.SetMessage("stale-formatter") }
 	preMsg     = z.Struct(z.Schema{"a": z.Int().GT(5, z.Message("mm")), "b": z.String().Min(9, z.Message("mm")).Catch("x")})
 	prePanic   = z.Struct(z.Schema{"a": z.Struct(z.Schema{"b": z.Slice(z.Int().TestFunc(func(v any, c z.Ctx) bool { panic("user callback panics") }))})})
-	nPreludes  = 9
+	preDeep    = z.Struct(z.Schema{"a": z.Struct(z.Schema{"b": z.Slice(z.Struct(z.Schema{"c": z.Slice(z.Struct(z.Schema{"d": z.Slice(z.Int().GT(5))}))}))})})
+	nPreludes  = 10
 	preludeOff bool
 )
 
@@ -78,6 +79,17 @@ func runPrelude(i int) {
 			d.A.B = []int{1}
 			prePanic.Validate(&d)
 		}()
+	case 9: // issues seven path segments deep (the pooled path builder grows)
+		var d struct {
+			A struct {
+				B []struct {
+					C []struct{ D []int }
+				}
+			}
+		}
+		m := preDeep.Parse(map[string]any{"a": map[string]any{"b": []any{map[string]any{"c": []any{map[string]any{"d": []any{1, 2}}}}}}}, &d)
+		z.Issues.CollectMap(m)
+		preDeep.Validate(&d)
 	case 6: // struct whose catching field is visited (possibly) last
 		var d preD
 		preStruct.Parse(map[string]any{"a": 1, "b": "123456789"}, &d)
